@@ -1,0 +1,126 @@
+//go:build verif
+
+package server
+
+// Contracts for the govc verification-condition generator (/verif/DESIGN.md section 3.4).
+// This file is compiled only with the build tag "verif"; every contract line starts with //@.
+
+//@ func toBool
+//@   props C19
+//@   effects none
+//@   ensures [bool] typeis(value, bool) ==> result1 && result0 == as(value, bool)
+//@   ensures [str_true] typeis(value, string) && trimspace(tolower(as(value, string))) == "true" ==> result1 && result0
+//@   ensures [str_false] typeis(value, string) && trimspace(tolower(as(value, string))) == "false" ==> result1 && !result0
+//@   ensures [str_other] typeis(value, string) && trimspace(tolower(as(value, string))) != "true" && trimspace(tolower(as(value, string))) != "false" ==> !result1
+//@   ensures [other] !typeis(value, bool) && !typeis(value, string) ==> !result1 && !result0
+
+//@ func toString
+//@   props C19
+//@   effects none
+//@   ensures [str] typeis(value, string) ==> result1 && result0 == as(value, string)
+//@   ensures [other] !typeis(value, string) ==> !result1
+
+//@ func toInt64
+//@   props C19
+//@   effects none
+//@   ensures [other] !typeis(value, int) && !typeis(value, int32) && !typeis(value, int64) && !typeis(value, float64) && !typeis(value, float32) && !typeis(value, string) ==> !result1 && result0 == 0
+
+//@ func toInt
+//@   props C19
+//@   effects none
+//@   ensures [int] typeis(value, int) ==> result1 && result0 == as(value, int)
+//@   ensures [int64] typeis(value, int64) ==> result1 && result0 == as(value, int64)
+//@   ensures [other] !typeis(value, int) && !typeis(value, int32) && !typeis(value, int64) && !typeis(value, float64) && !typeis(value, float32) && !typeis(value, string) ==> !result1 && result0 == 0
+
+//@ func normalizeServerSettings
+//@   props C19
+//@   ensures [maxResults] result.Completion.MaxResults == ite(settings.Completion.MaxResults <= 0, 50, settings.Completion.MaxResults)
+//@   ensures [indent] result.Formatting.IndentSize == ite(settings.Formatting.IndentSize <= 0, 4, settings.Formatting.IndentSize)
+//@   ensures [depth] result.Limits.MaxIncludeDepth == ite(settings.Limits.MaxIncludeDepth <= 0, 50, settings.Limits.MaxIncludeDepth)
+//@   ensures [size] result.Limits.MaxFileSizeBytes == ite(settings.Limits.MaxFileSizeBytes <= 0, 10485760, settings.Limits.MaxFileSizeBytes)
+//@   ensures [frame] result.Features == settings.Features && result.Diagnostics == settings.Diagnostics && result.Completion.FuzzyMatching == settings.Completion.FuzzyMatching && result.Completion.ShowCounts == settings.Completion.ShowCounts && result.Formatting.AlignAmounts == settings.Formatting.AlignAmounts && result.Formatting.MinAlignmentColumn == settings.Formatting.MinAlignmentColumn && result.CLI.Enabled == settings.CLI.Enabled
+//@   ensures [idem] result.Completion.MaxResults > 0 && result.Formatting.IndentSize > 0 && result.Limits.MaxIncludeDepth > 0 && result.Limits.MaxFileSizeBytes > 0 && result.CLI.Timeout > 0
+
+//@ func (*Server).shouldIncludeDiagnostic
+//@   props C02 C18 C19
+//@   ensures [acc] code == "UNDECLARED_ACCOUNT" ==> result == settings.UndeclaredAccounts
+//@   ensures [com] code == "UNDECLARED_COMMODITY" ==> result == settings.UndeclaredCommodities
+//@   ensures [bal] code == "UNBALANCED" || code == "MULTIPLE_INFERRED" ==> result == settings.UnbalancedTransactions
+//@   ensures [other] code != "UNDECLARED_ACCOUNT" && code != "UNDECLARED_COMMODITY" && code != "UNBALANCED" && code != "MULTIPLE_INFERRED" ==> result
+
+//@ pred okBool(v) := typeis(v, bool) || (typeis(v, string) && (trimspace(tolower(as(v, string))) == "true" || trimspace(tolower(as(v, string))) == "false"))
+//@ pred boolOf(v) := ite(typeis(v, bool), as(v, bool), trimspace(tolower(as(v, string))) == "true")
+
+//@ func applySettingsMap
+//@   props C19
+//@   requires raw != nil
+//@   ensures [hover_dotted] okBool(raw["features.hover"]) ==> result.Features.Hover == boolOf(raw["features.hover"])
+//@   ensures [hover_nested] !okBool(raw["features.hover"]) && typeis(raw["features"], "map[string]interface{}") && okBool(as(raw["features"], "map[string]interface{}")["hover"]) ==> result.Features.Hover == boolOf(as(raw["features"], "map[string]interface{}")["hover"])
+//@   ensures [hover_nested_bool] !typeis(raw["features.hover"], bool) && !typeis(raw["features.hover"], string) && typeis(raw["features"], "map[string]interface{}") && typeis(as(raw["features"], "map[string]interface{}")["hover"], bool) ==> result.Features.Hover == as(as(raw["features"], "map[string]interface{}")["hover"], bool)
+//@   ensures [hover_keep] !okBool(raw["features.hover"]) && !typeis(raw["features"], "map[string]interface{}") ==> result.Features.Hover == settings.Features.Hover
+//@   ensures [frame_limits_untouched] !typeis(raw["limits"], "map[string]interface{}") && !typeis(raw["limits.maxIncludeDepth"], int) && !typeis(raw["limits.maxIncludeDepth"], int32) && !typeis(raw["limits.maxIncludeDepth"], int64) && !typeis(raw["limits.maxIncludeDepth"], float64) && !typeis(raw["limits.maxIncludeDepth"], float32) && !typeis(raw["limits.maxIncludeDepth"], string) ==> result.Limits.MaxIncludeDepth == settings.Limits.MaxIncludeDepth
+
+//@ pred ordTok(ts) := forall i int :: 0 < i && i < len(ts) ==> ts[i - 1].line < ts[i].line || (ts[i - 1].line == ts[i].line && ts[i - 1].col <= ts[i].col)
+
+//@ func (*SemanticTokenEncoder).Encode
+//@   props C17 C06
+//@   requires e != nil && (line > e.lastLine || (line == e.lastLine && col >= e.lastCol))
+//@   ensures [shape] len(result) == 5 && fresh(result)
+//@   ensures [delta_line] result[0] == line - old(e.lastLine)
+//@   ensures [delta_col] result[1] == ite(line == old(e.lastLine), col - old(e.lastCol), col)
+//@   ensures [rest] result[2] == length && result[3] == tokenType && result[4] == modifiers
+//@   ensures [state] e.lastLine == line && e.lastCol == col
+//@   modifies e.lastLine, e.lastCol
+
+//@ func computeSemanticTokensEdits
+//@   props C17
+//@   ensures [same] len(oldData) == len(newData) && (forall k int :: 0 <= k && k < len(oldData) ==> oldData[k] == newData[k]) ==> len(result) == 0
+//@   ensures [replace] len(oldData) < 4294967296 && len(result) != 0 ==> len(result) == 1 && result[0].Start == 0 && result[0].DeleteCount == len(oldData) && result[0].Data == newData
+//@   ensures [difflen] len(oldData) != len(newData) ==> len(result) == 1
+//@   ensures [diffelem] len(oldData) == len(newData) && len(result) == 0 ==> (forall k int :: 0 <= k && k < len(oldData) ==> oldData[k] == newData[k])
+//@   loop 1 invariant 0 - 1 <= rangeindex && rangeindex <= len(oldData) - 1 && len(oldData) == len(newData) && same && (forall k int :: 0 <= k && k <= rangeindex ==> oldData[k] == newData[k])
+//@   loop 1 decreases len(oldData) - rangeindex
+
+//@ func mapTokenType
+//@   props C17
+//@   ensures [legend] result0 >= 0 && result0 <= 12
+
+//@ specdef prevLine(ts []semanticToken, i int) int := ite(i > 0, ts[i - 1].line, 0)
+//@ specdef prevCol(ts []semanticToken, i int) int := ite(i > 0, ts[i - 1].col, 0)
+//@ specdef encAt(ts []semanticToken, j int) int := ite(j % 5 == 0, ts[j / 5].line - prevLine(ts, j / 5), ite(j % 5 == 1, ite(ts[j / 5].line == prevLine(ts, j / 5), ts[j / 5].col - prevCol(ts, j / 5), ts[j / 5].col), ite(j % 5 == 2, ts[j / 5].length, ite(j % 5 == 3, ts[j / 5].tokenType, ts[j / 5].modifiers))))
+
+//@ func encodeTokens
+//@   props C17 C06
+//@   requires ordTok(tokens)
+//@   ensures [len] len(result) == 5 * len(tokens)
+//@   ensures [decode] forall j int :: 0 <= j && j < len(result) ==> result[j] == encAt(tokens, j)
+//@   loop 1 invariant 0 - 1 <= rangeindex && rangeindex <= len(tokens) - 1 && encoder != nil && fresh(encoder) && len(data) == 5 * (rangeindex + 1)
+//@   loop 1 invariant encoder.lastLine == prevLine(tokens, rangeindex + 1) && encoder.lastCol == prevCol(tokens, rangeindex + 1)
+//@   loop 1 invariant forall j int :: 0 <= j && j < len(data) ==> data[j] == encAt(tokens, j)
+//@   loop 1 decreases len(tokens) - rangeindex
+
+//@ func astRangeToProtocol
+//@   props C08
+//@   requires rng.Start.Line >= 1 && rng.Start.Column >= 1 && rng.End.Line >= 1 && rng.End.Column >= 1 && rng.Start.Line <= 4294967296 && rng.Start.Column <= 4294967296 && rng.End.Line <= 4294967296 && rng.End.Column <= 4294967296
+//@   ensures [copy] result != nil && result.Start.Line == rng.Start.Line - 1 && result.Start.Character == rng.Start.Column - 1 && result.End.Line == rng.End.Line - 1 && result.End.Character == rng.End.Column - 1
+
+//@ func positionInRange
+//@   props C08
+//@   ensures [spec] result <==> ((pos.Line + 1 > rng.Start.Line || (pos.Line + 1 == rng.Start.Line && pos.Character + 1 >= rng.Start.Column)) && (pos.Line + 1 < rng.End.Line || (pos.Line + 1 == rng.End.Line && pos.Character + 1 <= rng.End.Column)) && pos.Line + 1 >= rng.Start.Line && pos.Line + 1 <= rng.End.Line)
+
+//@ func estimatePayeeRange
+//@   props C08
+//@   requires tx != nil
+//@   ensures [shape] result.Start.Line == result.End.Line && result.Start.Column <= result.End.Column
+
+//@ trusted extractTagTokensFromComment
+//@   ensures forall i int :: 0 <= i && i < len(result) ==> result[i].tokenType <= 12
+//@   ensures fresh(result) || len(result) == 0
+
+//@ func tokenizeForSemantics
+//@   props C17 C06
+//@   requires len(content) < 4294967295
+//@   ensures [legend] forall i int :: 0 <= i && i < len(result) ==> result[i].tokenType <= 12
+//@   loop 1 invariant lexer != nil && fresh(lexer) && LexInv(lexer) && lexer.input == content
+//@   loop 1 invariant forall i int :: 0 <= i && i < len(tokens) ==> tokens[i].tokenType <= 12
+//@   loop 1 decreases len(content) - lexer.pos
